@@ -2,6 +2,7 @@ package main
 
 import (
 	"fmt"
+	"go/token"
 	"strings"
 
 	"golang.org/x/tools/go/ssa"
@@ -363,7 +364,15 @@ func c19Update(r *Run, fn *ssa.Function) {
 		for _, ret := range Returns(fg) {
 			v := RetVals(ret)
 			if glob("status.Errorf(5, *)", r.D.D(v[1])) {
-				r.MustGuard(fg, "getLatestSTH:NotFound-only-for-ErrNoRows", "*(*sql.Row).Scan(*)*g:sql.ErrNoRows*", "F", []ssa.Instruction{ret}, "NotFound return")
+				// whichever way the test is written (==, != with the branches exchanged, errors.Is):
+				// the NotFound return is unreachable when the scan error is not sql.ErrNoRows
+				tests := c19EqTests(r, fg, "(*sql.Row).Scan(*)", "g:sql.ErrNoRows")
+				if len(tests) == 0 {
+					r.Fail("getLatestSTH:NotFound-only-for-ErrNoRows", r.Where(ret), "undecided: no comparison of the scan error with sql.ErrNoRows")
+				}
+				for _, t := range tests {
+					r.MustGuard(fg, "getLatestSTH:NotFound-only-for-ErrNoRows", t[0], t[1], []ssa.Instruction{ret}, "NotFound return")
+				}
 			}
 		}
 		r.ErrorsGate(fg, "getLatestSTH:errors", "(*sql.Row).*", 2)
@@ -657,4 +666,43 @@ func c19Config(r *Run) {
 			r.ExpectFields(fn, "New:Witness", ret.(*ssa.Return).Results[0], map[string]string{"Logs": "p0.KnownLogs", "db": "p0.DB"})
 		}
 	}
+}
+
+// c19EqTests lists the atoms of fn that decide "a is b" for values whose origins match aGlob
+// and bGlob (identity comparison == / != in either operand order, or errors.Is(a, b)), each
+// with the atom value that means "a is NOT b": {atom key, value}.
+func c19EqTests(r *Run, fn *ssa.Function, aGlob, bGlob string) [][2]string {
+	var out [][2]string
+	seen := map[string]bool{}
+	add := func(v ssa.Value, ne string) {
+		ci := r.D.Classify(v)
+		if ci.Kind != "bool" {
+			return
+		}
+		if !ci.True["T"] { // Classify saw through a negation
+			ne = map[string]string{"T": "F", "F": "T"}[ne]
+		}
+		if !seen[ci.Key] {
+			seen[ci.Key] = true
+			out = append(out, [2]string{ci.Key, ne})
+		}
+	}
+	match := func(x, y ssa.Value) bool {
+		dx, dy := r.D.D(x), r.D.D(y)
+		return glob(aGlob, dx) && glob(bGlob, dy) || glob(aGlob, dy) && glob(bGlob, dx)
+	}
+	eachInstr(fn, func(in ssa.Instruction) {
+		switch x := in.(type) {
+		case *ssa.BinOp:
+			if (x.Op == token.EQL || x.Op == token.NEQ) && match(x.X, x.Y) {
+				add(x, map[token.Token]string{token.EQL: "F", token.NEQ: "T"}[x.Op])
+			}
+		case *ssa.Call:
+			if f := x.Call.StaticCallee(); f != nil && FuncName(f) == "errors.Is" && len(x.Call.Args) == 2 &&
+				glob(aGlob, r.D.D(x.Call.Args[0])) && glob(bGlob, r.D.D(x.Call.Args[1])) {
+				add(x, "F")
+			}
+		}
+	})
+	return out
 }
